@@ -70,6 +70,9 @@ type Arg struct {
 	Spelling int `json:"spelling"` // 0 "-p f", 1 "-pf", 2 "--patch-file f", 3 "--patch-file=f"
 	// PathStyle: how the path is written: 0 "f", 1 "./f", 2 "d/../f" (d an existing directory), 3 absolute
 	PathStyle int `json:"path_style,omitempty"`
+	// Stray (non-empty): not a -p flag at all but a positional argument with this text, which the
+	// command has no use for ("-", a stray file name); the -p flags around it still count, in order
+	Stray string `json:"stray,omitempty"`
 }
 
 // Scen is one replayable execution of the command.
@@ -127,6 +130,9 @@ func fold(s *Scen) (e Expected) {
 	api := sim.APIFor(s.Target)
 	var patches []any
 	for i, a := range s.Args {
+		if a.Stray != "" {
+			continue
+		}
 		if a.File < 0 || a.File >= len(s.Files) {
 			return Expected{Why: "bad file index"}
 		}
@@ -249,6 +255,10 @@ func Exec(s *Scen, binDir, dir string) (*Observed, error) {
 	var argv []string
 	os.MkdirAll(filepath.Join(dir, "d"), 0o755)
 	for _, a := range s.Args {
+		if a.Stray != "" {
+			argv = append(argv, a.Stray)
+			continue
+		}
 		name := s.Files[a.File].Name
 		if s.Files[a.File].State == StLinkRel {
 			name = "sub-" + name + "/" + name
@@ -426,6 +436,10 @@ func Check(s *Scen, e Expected, o *Observed) []sim.Violation {
 func describeArgs(s *Scen) string {
 	var parts []string
 	for _, a := range s.Args {
+		if a.Stray != "" {
+			parts = append(parts, "stray:"+a.Stray)
+			continue
+		}
 		f := s.Files[a.File]
 		d := f.State
 		if f.State == StFile || f.State == StLinkOK || f.State == StFifo || f.State == StLinkRel || f.State == StDevFd {
@@ -438,6 +452,10 @@ func describeArgs(s *Scen) string {
 
 // ---------------------------------------------------------------------------
 // generation
+
+// strayTexts: positional arguments ("-" is one by convention; the others name nothing that exists
+// or the first patch file once more, without a flag).
+var strayTexts = []string{"-", "stray.json", "p.json", "0"}
 
 const chainDoc = `{"step":0,"x":"orig","log":[]}`
 
@@ -576,6 +594,31 @@ func Enumerate() []*Scen {
 		out = append(out, &Scen{Target: target, Stdin: sim.Bytes(chainDoc), Note: "enumeration: same file twice", Files: []File{{Name: "p.json", State: StFile, Content: sim.Bytes(overwritePatch(1)), Note: "valid"}}, Args: []Arg{{File: 0}, {File: 0, Spelling: 3}}})
 		out = append(out, &Scen{Target: target, Stdin: sim.Bytes(chainDoc), Note: "enumeration: same chain file twice (second application fails)", Files: []File{{Name: "p.json", State: StFile, Content: sim.Bytes(chainPatch(0)), Note: "valid"}}, Args: []Arg{{File: 0}, {File: 0}}})
 		out = append(out, &Scen{Target: target, Stdin: sim.Bytes(chainDoc), Note: "enumeration: symlink to a valid file", Files: []File{{Name: "p.json", State: StLinkOK, Content: sim.Bytes(chainPatch(0)), Note: "valid"}}, Args: []Arg{{File: 0, Spelling: 1}}})
+		// a positional argument (four texts) at every position of a list of three chained patches - the
+		// last of which is malformed in the second round, so that ignoring what follows the stray
+		// argument shows as a success that should have been a failure, too
+		for _, lastBad := range []bool{false, true} {
+			for _, text := range strayTexts {
+				for at := 0; at <= 3; at++ {
+					sc := &Scen{Target: target, Stdin: sim.Bytes(chainDoc), Note: "enumeration: stray positional argument"}
+					for i := 0; i < 3; i++ {
+						f := File{Name: fmt.Sprintf("%c.json", 'p'+i), State: StFile, Content: sim.Bytes(chainPatch(i)), Note: "valid"}
+						if lastBad && i == 2 {
+							f.Content, f.Note = sim.Bytes(`[{"op":"add","path":"/x"`), "torn"
+						}
+						sc.Files = append(sc.Files, f)
+						if i == at {
+							sc.Args = append(sc.Args, Arg{Stray: text})
+						}
+						sc.Args = append(sc.Args, Arg{File: i, Spelling: (i + at) % 4})
+					}
+					if at == 3 {
+						sc.Args = append(sc.Args, Arg{Stray: text})
+					}
+					out = append(out, sc)
+				}
+			}
+		}
 		// stdin arriving in pieces: two writes, byte by byte, a trailing newline as its own write
 		for ci, chunks := range [][]int{{10}, {1, 1, 1, 1, 1, 1, 1, 1, 1, 1, 1, 1, 1, 1, 1, 1, 1, 1, 1, 1, 1, 1, 1, 1, 1, 1, 1, 1, 1}, {len(chainDoc)}, {len(chainDoc) - 1}} {
 			in := chainDoc
@@ -789,9 +832,15 @@ func Gen(seed uint64) *Scen {
 		i, j := r.Intn(len(s.Args)), r.Intn(len(s.Args))
 		s.Args[i], s.Args[j] = s.Args[j], s.Args[i]
 	}
+	if r.P(100) {
+		// a positional argument the command has no use for, somewhere among the flags
+		st := Arg{Stray: strayTexts[r.Intn(len(strayTexts))]}
+		at := r.Intn(len(s.Args) + 1)
+		s.Args = append(s.Args[:at], append([]Arg{st}, s.Args[at:]...)...)
+	}
 	if len(s.Args) > 0 && r.P(120) {
 		// (a named pipe can be read once: never give it twice)
-		if a := s.Args[r.Intn(len(s.Args))]; s.Files[a.File].State != StFifo && s.Files[a.File].State != StDevFd {
+		if a := s.Args[r.Intn(len(s.Args))]; a.Stray == "" && s.Files[a.File].State != StFifo && s.Files[a.File].State != StDevFd {
 			s.Args = append(s.Args, a)
 		}
 	}
@@ -939,6 +988,10 @@ func RunWorker(p sim.Params) *sim.Summary {
 			sum.OutClasses["failure:"+firstWords(e.Why)]++
 		}
 		for _, a := range s.Args {
+			if a.Stray != "" {
+				sum.Faults["stray_positional_argument"]++
+				continue
+			}
 			f := s.Files[a.File]
 			k := "patch_file_" + f.State
 			if f.State == StFile || f.State == StLinkOK || f.State == StFifo || f.State == StLinkRel || f.State == StDevFd {
@@ -1018,7 +1071,7 @@ func RunWorker(p sim.Params) *sim.Summary {
 		sum.Enum["fault_and_order_enumeration"]++
 	}
 	if done {
-		sum.Exhaustive = []string{fmt.Sprintf("every fault kind (%d) x every position in -p lists of length 1..3 with all other patches valid, every permutation of three chained and of three overwriting patches, no/duplicate/symlinked arguments, 14 stdin variants (empty, other roots, torn, byte-order marks, trailing data), 255/256/257/512 patch arguments, a 1 MiB patch file at each of 3 positions, stdin redirected from a regular file (5 documents, with and without patches), six two-file lists whose second file refers to the whole document or replaces a null root, 100 patch files under an open-file limit of 32, stdin delivered in 1/2/n writes, a named pipe, an inherited pipe (/dev/fd/N) and a relative symlink in a sub-directory as patch file at every position, 4 path styles x 4 flag spellings - for both binaries (%d executions)", numFaultKinds, len(enum))}
+		sum.Exhaustive = []string{fmt.Sprintf("every fault kind (%d) x every position in -p lists of length 1..3 with all other patches valid, every permutation of three chained and of three overwriting patches, no/duplicate/symlinked arguments, 14 stdin variants (empty, other roots, torn, byte-order marks, trailing data), 255/256/257/512 patch arguments, a 1 MiB patch file at each of 3 positions, stdin redirected from a regular file (5 documents, with and without patches), six two-file lists whose second file refers to the whole document or replaces a null root, 100 patch files under an open-file limit of 32, stdin delivered in 1/2/n writes, a named pipe, an inherited pipe (/dev/fd/N) and a relative symlink in a sub-directory as patch file at every position, 4 path styles x 4 flag spellings, a stray positional argument (4 texts) at each position of a three-patch list - for both binaries (%d executions)", numFaultKinds, len(enum))}
 	}
 	// 2. seeded random scenarios
 	for i := int64(0); i < p.MaxRuns && time.Now().Before(p.Deadline); i++ {
